@@ -713,6 +713,7 @@ def _as_arr(x):
 
 
 F32_LOG: list = []
+F32_OPS_LOG: list = []
 
 
 def _rnd_add(rnd, dt):
@@ -1054,6 +1055,10 @@ def inplace(a: Variable, b, op):
         a._unit = r.unit
     a._write()
     a._a[...] = r._a
+    if a._dtype.name == 'float32' and op in ('mul', 'div'):
+        # the product / quotient is stored in single precision whatever the other operand was: its magnitude matters
+        for idx_ in np.ndindex(r._a.shape):
+            F32_OPS_LOG.append(r._a[idx_])
     if r._v is not None:
         if a._v is None:
             raise VariancesError('in-place op would add variances')
